@@ -19,7 +19,7 @@ META = {
                         '2 modes x 2 functions, 2 snapshots, ranks 2, two pivot selections', 'thorough': 'more family mixtures, 3 snapshots in HOCUR extraction'},
     'outside': ['HOCUR pivot selection itself (pivoted QR / max-volume iteration are data-dependent control through LAPACK)', 'rounding'],
     'assumptions': ['intersection matrices chosen by the pivot search are invertible (their determinants are the recorded denominators)'],
-    'tv_per_scenario': {'quick': 0, 'thorough': 0},
+    'tv_per_scenario': {'quick': 1000, 'thorough': 1000},
 }
 
 
